@@ -181,6 +181,15 @@ def run(prog: Program, rep, thorough: bool) -> None:
     for path, leaf in leaves(tree):
         if leaf.kind == 'raise':
             continue
+        if leaf.kind == 'break':
+            # leaving the loop before anything has been advanced is the loop's end test in another spelling
+            e_ = leaf.state.env
+            W0 = _vec(ev, leaf.state, e_.get(F.P)), _vec(ev, leaf.state, e_.get(F.V))
+            same = W0[0] is not None and W0[1] is not None and all(a_.equals(A.sym(n_)) for a_, n_ in zip(W0[0] + W0[1], ('x', 'y', 'z', 'vx', 'vy', 'vz'))) \
+                and isinstance(e_.get(F.t), Scalar) and e_[F.t].rf.equals(A.sym('t'))
+            if not same:
+                problems.setdefault('exit', 'the loop is left by `break` after the state has been advanced')
+            continue
         if leaf.kind not in ('fall', 'continue'):
             problems.setdefault('exit', f'the loop body leaves by `{leaf.kind}`')
             continue
@@ -229,7 +238,7 @@ def run(prog: Program, rep, thorough: bool) -> None:
                  f'the atmosphere is queried at {[a for a in dens_args if not (isinstance(a, Scalar) and a.rf.equals(want_alt))][:1] or dens_args[:1]!r}, the statement says station altitude + current height '
                  f'({want_alt!r})')
     cd = F.cfg.control_dependence()
-    guards = [F.cfg.nodes[t] for t, _l in cd[F.density_node.id] if F.cfg.nodes[t] is not F.loop_head]
+    guards = [F.cfg.nodes[t] for t, _l in cd[F.density_node.id] if F.cfg.nodes[t] not in F.loop_controls]
     if guards:
         rep.fail('C01.R2', tc.path, F.density_node.line, F.func.qualname, 'density-conditional',
                  f'the atmosphere query runs only under `{guards[0].text()[:60]}`: stale density and speed of sound are '
